@@ -6,7 +6,7 @@ import PyYetiVerif.Props.C10
 
 `find_duplicates` is modelled (`Findap.findDuplicates`, the sorted-neighbour code, and
 `Findap.dupSpec`, the documented meaning) and tied by the exact `fu` / `fdup` streams; that the
-two agree is measured on every run, not proved.
+two agree is proved in `Props/C10Dups.lean` (`find_duplicates_eq_spec`) and still compared on every run.
 -/
 set_option linter.unusedVariables false
 namespace PyYetiVerif.C10
